@@ -220,6 +220,8 @@ pub struct QueueScn {
     pub err_code: Option<usize>,
     /// pad every metric to at least this many bytes
     pub big: usize,
+    /// reference-count operations of the sink's `Arc`s are scheduling points
+    pub arc: bool,
     pub text: String,
 }
 
@@ -239,6 +241,7 @@ pub fn scenario(spec: &crate::Spec) -> QueueScn {
         flush_fails: spec.usize("ff", 0) == 1,
         err_code: spec.opt_usize("kind").or(spec.opt_usize("errno").map(|n| 1000 + n)),
         big: spec.usize("big", 0),
+        arc: spec.usize("arc", 0) == 1,
         text: spec.raw.clone(),
     }
 }
@@ -307,6 +310,10 @@ fn read_counters(sh: &Shared, q: &QueuingMetricSink, thread: usize, quiescent: b
 impl Scenario for QueueScn {
     fn name(&self) -> String {
         self.text.clone()
+    }
+
+    fn arc_points(&self) -> bool {
+        self.arc
     }
 
     fn max_steps(&self) -> usize {
